@@ -399,6 +399,17 @@ def falsify(ctx, hints):
                             seg = t % freq + 1
                             ref = {"yoy": t - freq, "soy": (t // freq) * freq, "eopy": (t // freq) * freq - 1,
                                    "tty": (t - 1) if seg > 1 else None}[kw]
+                            if kw == "tty" and ref is None and kind in ("diff", "roc"):
+                                # documented: "in start-of-year periods, the value of the resulting series is unchanged"
+                                # (stated for diff; roc divides by the neutral value 1) -- pct/diff_log are left undecided
+                                got = y.get_data(sc.mk_period(freq, t))[0]
+                                if not _close(got, val[t]):
+                                    fails.append(Failure(f"keyword:tty:{kind}:start-of-year",
+                                                         f"{kind}(x, 'tty') at the start-of-year serial {t} is not the unchanged value x_t as documented",
+                                                         {"series": spec, "shift": kw, "t": t}, got.tolist(), np.asarray(val[t]).tolist(),
+                                                         f"irispie.{kind}(x, 'tty')"))
+                                    raise StopIteration
+                                continue
                             if ref is None or ref not in val:
                                 continue
                             want = _formula(kind, val[t], val[ref], f)
